@@ -3,14 +3,14 @@
 # load-induced flakiness from real regressions. Usage: tools/baseline.sh <logfile>
 LOG=${1:-/verif/build/baseline.log}
 cd ${BASEDIR:-/repo}
-timeout 3000 cargo nextest run --workspace --no-fail-fast --tool-config-file pb:/w/lib/nextest.toml --profile pb --test-threads 8 --offline > "$LOG" 2>&1
+flock /tmp/seed/suite.lock timeout 3000 cargo nextest run --workspace --no-fail-fast --tool-config-file pb:/w/lib/nextest.toml --profile pb --test-threads 8 --offline > "$LOG" 2>&1
 grep -E '^\s+(FAIL|SIGABRT|SIGSEGV|TIMEOUT)' "$LOG" | sed -E 's/.*\) //' | sort -u > "$LOG.failed"
 grep -E 'Summary' "$LOG" >> "$LOG.summary"
 : > "$LOG.retry"
 while read -r bin name; do
   case "$name" in *test_create_parent_dir_fails_when_permission_denied|*test_delete_permission_denied) continue;; esac
   t=${name##*::}
-  if timeout 600 cargo nextest run --workspace --tool-config-file pb:/w/lib/nextest.toml --profile pb --offline -E "test(=$name)" >> "$LOG.retrylog" 2>&1; then
+  if flock /tmp/seed/suite.lock timeout 600 cargo nextest run --workspace --tool-config-file pb:/w/lib/nextest.toml --profile pb --offline -E "test(=$name)" >> "$LOG.retrylog" 2>&1; then
     echo "RETRY-PASS $bin $name" >> "$LOG.retry"
   else
     echo "RETRY-FAIL $bin $name" >> "$LOG.retry"
